@@ -66,9 +66,16 @@ func callMenu(v2 bool) []call {
 	return cs
 }
 
+func indexCalls() []call {
+	return []call{
+		{name: "Query(gsi)", op: drv.Op{K: drv.KQuery, Table: "tab", Index: "gsi", KeyCond: rx.Eq("a", ":a"), Values: map[string]val.V{":a": val.S("init")}}},
+		{name: "Scan(gsi)", op: drv.Op{K: drv.KScan, Table: "tab", Index: "gsi"}},
+	}
+}
+
 type scenario struct {
 	name    string
-	init    string // absent | empty | present
+	init    string // absent | empty | present | indexed (k1, k2 and a GSI on attribute a)
 	threads [][]call
 }
 
@@ -90,8 +97,12 @@ func setup(newImpl func() drv.Driver, init string) drv.Driver {
 		if init != "absent" {
 			impl.Do(drv.Op{K: drv.KCreate, Table: "tab", Cfg: &tabCfg})
 		}
-		if init == "present" {
+		if init == "present" || init == "indexed" {
 			impl.Do(drv.Op{K: drv.KPut, Table: "tab", Item: val.Item{"h": val.S("k1"), "a": val.S("init"), "n": val.N("0")}})
+		}
+		if init == "indexed" {
+			impl.Do(drv.Op{K: drv.KPut, Table: "tab", Item: val.Item{"h": val.S("k2"), "a": val.S("init")}})
+			impl.Do(drv.Op{K: drv.KCreateGSI, Table: "tab", IdxCfg: &drv.IndexCfg{Name: "gsi", Hash: "a", HashT: "S"}})
 		}
 	})
 	return impl
@@ -101,7 +112,7 @@ func observe(impl drv.Driver) string {
 	var sb strings.Builder
 	managed("final observation", func() {
 		impl.Do(drv.Op{K: drv.KFail, Fail: "none"}) // reads fail while a failure is emulated: look at the data itself
-		for _, o := range []drv.Op{{K: drv.KDescribe, Table: "tab"}, {K: drv.KGet, Table: "tab", Key: hk("k1")}, {K: drv.KGet, Table: "tab", Key: hk("k2")}, {K: drv.KScan, Table: "tab"}} {
+		for _, o := range []drv.Op{{K: drv.KDescribe, Table: "tab"}, {K: drv.KGet, Table: "tab", Key: hk("k1")}, {K: drv.KGet, Table: "tab", Key: hk("k2")}, {K: drv.KScan, Table: "tab"}, {K: drv.KScan, Table: "tab", Index: "gsi"}} {
 			sb.WriteString(impl.Do(o).Short())
 			sb.WriteString(" | ")
 		}
@@ -438,10 +449,12 @@ func races(evs []vs.Event) []raceRep {
 				if a.e.Thread == b.e.Thread || (!a.e.Write && !b.e.Write) {
 					continue
 				}
+				// a common mutex orders the two accesses only if at least one side holds it
+				// exclusively: two holders of the read side of an RWMutex run concurrently
 				common := false
 				for _, x := range a.e.Locks {
 					for _, y := range b.e.Locks {
-						if x == y {
+						if x == y && (holds(a.e.Excl, x) || holds(b.e.Excl, x)) {
 							common = true
 						}
 					}
@@ -450,10 +463,10 @@ func races(evs []vs.Event) []raceRep {
 					continue
 				}
 				var unlocked []string
-				if len(a.e.Locks) == 0 {
+				if len(a.e.Excl) == 0 {
 					unlocked = append(unlocked, a.call)
 				}
-				if len(b.e.Locks) == 0 {
+				if len(b.e.Excl) == 0 {
 					unlocked = append(unlocked, b.call)
 				}
 				sort.Strings(unlocked)
@@ -471,6 +484,15 @@ func races(evs []vs.Event) []raceRep {
 		}
 	}
 	return out
+}
+
+func holds(ls []interface{}, m interface{}) bool {
+	for _, x := range ls {
+		if x == m {
+			return true
+		}
+	}
+	return false
 }
 
 func main() {
@@ -521,6 +543,17 @@ func main() {
 				for _, init := range []string{"absent", "empty", "present"} {
 					jobs = append(jobs, job{d.mk, d.name, scenario{name: menu[i].name + " || " + menu[j].name, init: init, threads: [][]call{{menu[i]}, {menu[j]}}}, pairBound})
 				}
+			}
+		}
+		// reads through a secondary index (they use per-index scratch state) against every call,
+		// from a state whose index holds two entries
+		idx := indexCalls()
+		for i := 0; i < len(idx); i++ {
+			for j := i; j < len(idx); j++ {
+				jobs = append(jobs, job{d.mk, d.name, scenario{name: idx[i].name + " || " + idx[j].name, init: "indexed", threads: [][]call{{idx[i]}, {idx[j]}}}, pairBound + 1})
+			}
+			for j := 0; j < len(menu); j++ {
+				jobs = append(jobs, job{d.mk, d.name, scenario{name: idx[i].name + " || " + menu[j].name, init: "indexed", threads: [][]call{{idx[i]}, {menu[j]}}}, pairBound})
 			}
 		}
 		// the named scenarios of the property: N concurrent ADD 1 => N; N racing attribute_not_exists puts => one success
@@ -633,7 +666,7 @@ func coverage(st *stats, njobs int) map[string]interface{} {
 		"lockset_violations_seen":       st.Races,
 		"exhaustive":                    st.Capped == 0,
 		"samples":                       []interface{}{"Put(k1) || Upd(k1,ADD n 1) from init=present, preemption bound 1", "3 x ADD 1, bound 2", "CreateTable;Put || CreateTable;Put"},
-		"bounds":                        "every pair of the call menu (incl. a call with itself) from the states {table absent, table empty, k1 present}: all schedules with at most 1 (thorough: 2) preemptions at Lock/Unlock/Access points of the client packages and at every statement of core/table.go and core/index.go; named N-thread scenarios and two-call threads with at most 2 preemptions; thorough: triples with at most 1 preemption; both SDK clients",
+		"bounds":                        "every pair of the call menu (incl. a call with itself) from the states {table absent, table empty, k1 present}, and Query/Scan through a secondary index against every call from the state {k1, k2, GSI on a}: all schedules with at most 1 (thorough: 2) preemptions at Lock/Unlock/Access points of the client packages and at every statement of core/table.go and core/index.go; named N-thread scenarios and two-call threads with at most 2 preemptions; thorough: triples with at most 1 preemption; both SDK clients",
 		"oracle":                        "per execution: no deadlock (no enabled thread), no livelock, no panic, lockset race freedom over the recorded accesses to Client fields and core.Table / index objects, and the recorded responses plus the final observation equal those of some sequential order of the same calls run on a fresh client (batch calls decomposed into their requests)",
 		"states_note":                   "states = scheduling steps executed (every step runs the real, instrumented client code); schedules = complete executions",
 	}
